@@ -639,10 +639,14 @@ class GraphBasedModelConstructor:
         polya_reads = defaultdict(list)
         polyt_reads = defaultdict(list)
         for a in novel_mono_exon_reads:
-            if a.polya_info.external_polya_pos != -1:
+            has_polya = a.polya_info.external_polya_pos != -1
+            has_polyt = a.polya_info.external_polyt_pos != -1
+            # a read with a polyA tail AND a polyT head has no strand (get_assignment_strand reports '.'): it supports
+            # neither a '+' nor a '-' model, otherwise it sits in a cluster of either strand and is assigned to two models
+            if has_polya and not has_polyt:
                 if not self.is_internal_monoexonic_read(a, polya_exons, forward=True):
                     polya_reads[a.polya_info.external_polya_pos].append(a)
-            if a.polya_info.external_polyt_pos != -1:
+            if has_polyt and not has_polya:
                 if not self.is_internal_monoexonic_read(a, polyt_exons, forward=False):
                     polyt_reads[a.polya_info.external_polyt_pos].append(a)
 
